@@ -20,6 +20,7 @@ import (
 	"math/bits"
 	"net"
 	"reflect"
+	"runtime"
 	"sort"
 	"strings"
 	"sync"
@@ -590,6 +591,25 @@ type c19CookieCase struct {
 	Forge  bool `json:"forge,omitempty"` // harness-driven base: build even an unaltered acknowledgement with the forging helper (self-test of the helper)
 	Fam    int  `json:"fam,omitempty"`   // address family of every address in the case: 0 IPv4-mapped 16-byte, 1 IPv4 4-byte, 2 IPv6
 	AgeS   int  `json:"ageS,omitempty"`  // virtual seconds the server has been serving when the base exchange is made (the cookie is minted in the server's (AgeS/120)-th key period)
+	// Key 3 / 4: the acknowledgement names a key that equals K outside ONE region of its 800-byte encoding: KLen <= 1: the
+	// byte at KOff is xored with KMask (a single bit when KMask has one bit set); KLen > 1: the KLen bytes from KOff are
+	// rewritten from KSeed (see c19AlterKey). Key 3 overwrites the KEM field and leaves the MAC alone; Key 4
+	// (harness-driven base only) recomputes transcript and MACs for the altered key from K's shared secret.
+	KOff  int    `json:"kOff,omitempty"`
+	KMask int    `json:"kMask,omitempty"`
+	KLen  int    `json:"kLen,omitempty"`
+	KSeed uint64 `json:"kSeed,omitempty"`
+	// client-hello traffic and socket-send durations around the rotation instants between minting and presentation
+	Busy []c19Busy `json:"busy,omitempty"`
+}
+
+// c19Busy: what the server is doing around ONE rotation instant that lies between the minting of the cookie and its
+// presentation. The server answers a client hello with the cookie key locked, socket write included.
+type c19Busy struct {
+	Rot    int `json:"rot"`             // which rotation instant after the minting: 1 the first, 2 the second, ...
+	LeadMs int `json:"leadMs"`          // > 0: a valid client hello from another address arrives this long before the instant ...
+	SendMs int `json:"sendMs"`          // ... and the socket send of its ServerHello takes this long (>= LeadMs: the send is in progress at the instant)
+	Burst  int `json:"burst,omitempty"` // further valid hellos, from distinct addresses, delivered at the instant itself (ordinary sends)
 }
 
 var c19FromAddrs = []*net.UDPAddr{vCliAddr, c19AddrSameIP, c19AddrSamePort, vEvilAddr}
@@ -613,9 +633,11 @@ type c19CookieOut struct {
 	grewField    string
 	grewFrom     int
 	grewTo       int
-	rotated      bool // white-box: the cookie key differs from the one in use when the cookie was minted
-	due          bool // by the clock: a rotation instant (every c19RotationPeriod since Serve started) lies between minting and presentation
-	dueClear     bool // ... and neither minting nor presentation is within a second of a rotation instant
+	rotated      bool     // white-box: the cookie key differs from the one in use when the cookie was minted
+	due          bool     // by the clock: a rotation instant (every c19RotationPeriod since Serve started) lies between minting and presentation
+	dueClear     bool     // ... and neither minting nor presentation is within a second of a rotation instant
+	keyNote      string   // Key 3 / 4: where the named key differs from K and whether it is a well-formed encapsulation key
+	busy         []string // what happened around the rotation instants (labels)
 }
 
 // c19RotationPeriod: "K_r is a key that is rotated every N minutes" (handshake_spec.md, Server Hello Construction); N = 2 in
@@ -719,9 +741,16 @@ func c19Cookie(c c19CookieCase) (out c19CookieOut) {
 		case 1:
 			pk, _ := c19NewKEM().Public.MarshalBinary()
 			copy(ack[c19AckOffKEM:c19AckOffCookie], pk)
-		case 2:
-			out.mach = "key variant 2 needs a harness-driven base exchange"
+		case 2, 4:
+			out.mach = "key variants 2 and 4 need a harness-driven base exchange"
 			return
+		case 3:
+			alt := c19AlterKey(ack[c19AckOffKEM:c19AckOffCookie], c)
+			out.keyNote = c19KeyRegion(c)
+			if _, perr := keys.ParseKEMPublicKeyFromBytes(alt); perr != nil {
+				out.keyNote += ":not-a-well-formed-key"
+			}
+			copy(ack[c19AckOffKEM:c19AckOffCookie], alt)
 		}
 	} else {
 		kp := c19NewKEM()
@@ -753,24 +782,55 @@ func c19Cookie(c c19CookieCase) (out c19CookieOut) {
 			cookie[c.Off%PQCookieLen] ^= byte(c.Mask)
 		}
 		ackKey := kp
-		if c.Key == 2 {
-			ackKey = c19NewKEM()
+		consistent := false // transcript and MACs are computed for another key than K
+		var field []byte    // bytes that overwrite the KEM field of the finished acknowledgement (MAC untouched)
+		switch c.Key {
+		case 1:
+			field, _ = c19NewKEM().Public.MarshalBinary()
+		case 2:
+			ackKey, consistent = c19NewKEM(), true
+		case 3, 4:
+			raw, _ := kp.Public.MarshalBinary()
+			alt := c19AlterKey(raw, c)
+			out.keyNote = c19KeyRegion(c)
+			if d0, d1 := c19FirstLastDiff(raw, alt); d0 < 0 || d0 < c.KOff || d1 >= c.KOff+max(c.KLen, 1) {
+				out.mach = fmt.Sprintf("altered key differs from K in bytes %d..%d, wanted a difference inside %d..%d", d0, d1, c.KOff, c.KOff+max(c.KLen, 1)-1)
+				return
+			}
+			pk, perr := keys.ParseKEMPublicKeyFromBytes(alt)
+			if perr != nil {
+				out.keyNote += ":not-a-well-formed-key"
+			}
+			if c.Key == 4 && perr == nil {
+				ackKey, consistent = &keys.KEMKeyPair{Public: *pk}, true
+			} else {
+				field = alt // (a key the parser refuses cannot be given a transcript: its bytes replace the field)
+			}
 		}
-		if c.Key != 2 && c.Cookie == 0 && !c.Forge {
+		if !consistent && c.Cookie == 0 && !c.Forge {
 			ack = append([]byte(nil), x.ack...) // the acknowledgement the real client code wrote
 		} else {
 			ack = c19ForgeAck(ackKey, secret, cookie)
 		}
-		if c.Key == 1 {
-			pk, _ := c19NewKEM().Public.MarshalBinary()
-			copy(ack[c19AckOffKEM:c19AckOffCookie], pk)
+		if field != nil {
+			copy(ack[c19AckOffKEM:c19AckOffCookie], field)
+		}
+		if c.Key == 4 && consistent {
+			want, _ := ackKey.Public.MarshalBinary()
+			kraw, _ := kp.Public.MarshalBinary()
+			if string(ack[c19AckOffKEM:c19AckOffCookie]) != string(want) || string(want) == string(kraw) {
+				out.mach = "the acknowledgement forged for the altered key does not carry the altered key"
+				return
+			}
 		}
 	}
 	if c.Cookie == 1 && c.Real {
 		ack[c19AckOffCookie+c.Off%PQCookieLen] ^= byte(c.Mask)
 	}
 	mintTo := time.Since(served)
-	time.Sleep(time.Duration(c.DelayS) * time.Second)
+	present := time.Now().Add(time.Duration(c.DelayS) * time.Second)
+	out.busy = c19BusyTraffic(env, c.Busy, served, mintTo, present)
+	time.Sleep(time.Until(present))
 	out.rotated = c19CookieKey(env.Srv) != keyAt
 	out.due, out.dueClear = c19RotationDue(mintFrom, mintTo, time.Since(served))
 	src := c19FromAddrs[c.From]
@@ -790,6 +850,218 @@ func c19Cookie(c c19CookieCase) (out c19CookieOut) {
 	out.entryCreated = out.entry && entryBefore == nil // by this presentation
 	out.grewField, out.grewFrom, out.grewTo = c19FootprintDiff(before, c19Footprint(env.Srv))
 	return
+}
+
+// ---- keys that differ from K in one region ----
+
+const (
+	c19KemQ       = 3329 // ML-KEM modulus: the first 768 bytes of an encapsulation key are 512 coefficients of 12 bits, each < q
+	c19KemTHatLen = 768  // (FIPS 203 encapsulation-key check, made by circl's UnmarshalBinaryPublicKey); the last 32 bytes are a free seed
+)
+
+func c19Coeff(b []byte, i int) int {
+	p := 3 * (i / 2)
+	if i%2 == 0 {
+		return int(b[p]) | int(b[p+1]&0x0f)<<8
+	}
+	return int(b[p+1]>>4) | int(b[p+2])<<4
+}
+
+func c19SetCoeff(b []byte, i, v int) {
+	p := 3 * (i / 2)
+	if i%2 == 0 {
+		b[p] = byte(v)
+		b[p+1] = b[p+1]&0xf0 | byte(v>>8)&0x0f
+	} else {
+		b[p+1] = b[p+1]&0x0f | byte(v<<4)
+		b[p+2] = byte(v >> 4)
+	}
+}
+
+// c19AlterKey returns a copy of the 800-byte encoding raw of an ML-KEM-512 encapsulation key that differs from it
+// only inside the region the case names. One byte (KLen <= 1): xor with KMask - the result may have a coefficient >= q,
+// then the key parser refuses it (labelled). A longer region is rewritten so that the result stays a well-formed key:
+// every 12-bit coefficient that lies completely inside the region becomes another value below q, every byte of the
+// region that belongs to the trailing seed is xored with a non-zero byte.
+func c19AlterKey(raw []byte, c c19CookieCase) []byte {
+	out := append([]byte(nil), raw...)
+	if c.KLen <= 1 {
+		out[c.KOff] ^= byte(c.KMask)
+		return out
+	}
+	end := c.KOff + c.KLen
+	fill := vlib.Fill(c.KSeed, 2*c.KLen+2)
+	for i := 0; i < c19KemTHatLen*8/12; i++ {
+		lo, hi := 12*i/8, (12*i+11)/8
+		if lo >= c.KOff && hi < end {
+			d := 1 + (int(fill[2*(lo-c.KOff)])<<8|int(fill[2*(lo-c.KOff)+1]))%(c19KemQ-1)
+			c19SetCoeff(out, i, (c19Coeff(out, i)%c19KemQ+d)%c19KemQ)
+		}
+	}
+	for p := max(c.KOff, c19KemTHatLen); p < end; p++ {
+		out[p] ^= fill[p-c.KOff] | 1
+	}
+	return out
+}
+
+// c19FirstLastDiff returns the first and the last index at which a and b differ (-1, -1: equal).
+func c19FirstLastDiff(a, b []byte) (int, int) {
+	first, last := -1, -1
+	for i := range a {
+		if a[i] != b[i] {
+			if first < 0 {
+				first = i
+			}
+			last = i
+		}
+	}
+	return first, last
+}
+
+func c19KeyRegion(c c19CookieCase) string {
+	kind := fmt.Sprintf("%d-bytes", c.KLen)
+	if c.KLen <= 1 {
+		kind = "one-byte"
+		if bits.OnesCount8(uint8(c.KMask)) == 1 {
+			kind = "one-bit"
+		}
+	}
+	switch end := c.KOff + max(c.KLen, 1); {
+	case end <= c19KemTHatLen:
+		return kind + ":inside-the-first-768-bytes"
+	case c.KOff >= c19KemTHatLen:
+		return kind + ":inside-the-last-32-bytes"
+	}
+	return kind + ":across-byte-768"
+}
+
+// ---- traffic around rotation instants ----
+
+// A goroutine outside every bubble that sleeps in REAL time on request. A send that is in progress at a rotation
+// instant cannot be modelled by a virtual sleep across the instant: the rotation goroutine then waits for the cookie
+// lock, a goroutine waiting for a sync.Mutex is not durably blocked, and the bubble's clock would never move again.
+// Instead the send sleeps virtually up to the instant and then keeps the socket write blocked for c19HoldReal of real
+// time (the virtual clock stands still meanwhile): long enough for the rotation goroutine, woken at the same virtual
+// instant, to reach the lock. The channels are created here, outside any bubble, so waiting on them is not durable.
+var (
+	c19RealReq  = make(chan time.Duration)
+	c19RealAck  = make(chan struct{})
+	c19RealOnce sync.Once
+	c19RealOn   atomic.Bool
+)
+
+const c19HoldReal = 4 * time.Millisecond
+
+// c19StartRealClock must be called outside a bubble (test function / case runner).
+func c19StartRealClock() {
+	c19RealOnce.Do(func() {
+		go func() {
+			for d := range c19RealReq {
+				time.Sleep(d)
+				c19RealAck <- struct{}{}
+			}
+		}()
+		c19RealOn.Store(true)
+	})
+}
+
+func c19RealPause(d time.Duration) {
+	if !c19RealOn.Load() {
+		for i := 0; i < 2000; i++ {
+			runtime.Gosched()
+		}
+		return
+	}
+	c19RealReq <- d
+	<-c19RealAck
+}
+
+// c19BusyTraffic plays the hello traffic of the case around the rotation instants that lie between the minting of the
+// cookie (mintTo after the start of Serve) and its presentation, and returns labels. It returns before present.
+func c19BusyTraffic(env *vEnv, plan []c19Busy, served time.Time, mintTo time.Duration, present time.Time) (labels []string) {
+	if len(plan) == 0 {
+		return []string{"rotation-instant-traffic:none"}
+	}
+	plan = append([]c19Busy(nil), plan...)
+	sort.SliceStable(plan, func(i, j int) bool { return plan[i].Rot < plan[j].Rot })
+	var mu sync.Mutex
+	slow := map[string]func(){} // destination -> what the socket send of the next datagram to it does first
+	var ran atomic.Int32
+	env.SrvSock.SetWriteGate(func(b []byte, dst *net.UDPAddr, closed <-chan struct{}) {
+		if dst == nil {
+			return
+		}
+		mu.Lock()
+		f := slow[dst.String()]
+		delete(slow, dst.String())
+		mu.Unlock()
+		if f != nil {
+			f()
+			ran.Add(1)
+		}
+	})
+	defer env.SrvSock.SetWriteGate(nil)
+	first := mintTo/c19RotationPeriod + 1 // number of the first rotation instant after the minting
+	addrs, lastRot := 0, 0
+	next := func() *net.UDPAddr { addrs++; return simnet.Addr("10.0.5.1", 45000+addrs) }
+	for _, b := range plan {
+		if b.Rot <= lastRot || b.Rot < 1 {
+			continue // one plan per instant
+		}
+		instant := served.Add((first + time.Duration(b.Rot-1)) * c19RotationPeriod)
+		if !instant.Before(present.Add(-time.Second)) {
+			labels = append(labels, "rotation-instant-traffic:instant-not-before-the-presentation(ignored)")
+			continue
+		}
+		lastRot = b.Rot
+		var burst [][]byte
+		for i := 0; i < b.Burst; i++ {
+			_, h := c19Hello(c19NewKEM())
+			burst = append(burst, h)
+		}
+		if arrive := instant.Add(-time.Duration(b.LeadMs) * time.Millisecond); b.LeadMs > 0 && time.Until(arrive) > 0 {
+			_, hello := c19Hello(c19NewKEM())
+			time.Sleep(time.Until(arrive))
+			addr := next()
+			before := ran.Load()
+			inProgress := b.SendMs >= b.LeadMs
+			mu.Lock()
+			slow[addr.String()] = func() {
+				if !inProgress {
+					time.Sleep(time.Duration(b.SendMs) * time.Millisecond)
+					return
+				}
+				time.Sleep(time.Until(instant)) // the cookie key is locked by the hello handler all the while
+				c19RealPause(c19HoldReal)       // ... and still is when the rotation falls due
+			}
+			mu.Unlock()
+			env.Net.Inject(addr, vSrvAddr, hello)
+			if len(burst) == 0 {
+				time.Sleep(time.Until(instant.Add(100 * time.Millisecond)))
+			} else {
+				time.Sleep(time.Until(instant))
+			}
+			switch {
+			case len(burst) == 0 && ran.Load() == before:
+				labels = append(labels, "rotation-instant-traffic:slow-send-did-not-happen(hello-unanswered)")
+			case inProgress:
+				labels = append(labels, "rotation-instant-traffic:send-in-progress-at-the-instant")
+			default:
+				labels = append(labels, "rotation-instant-traffic:slow-send-finished-before-the-instant")
+			}
+		} else if b.LeadMs > 0 {
+			labels = append(labels, "rotation-instant-traffic:hello-would-precede-the-minting(ignored)")
+		}
+		if len(burst) > 0 {
+			time.Sleep(time.Until(instant))
+			for _, h := range burst {
+				env.Net.Inject(next(), vSrvAddr, h)
+			}
+			labels = append(labels, "rotation-instant-traffic:hello-burst-at-the-instant")
+			time.Sleep(100 * time.Millisecond)
+		}
+	}
+	return labels
 }
 
 func c19CookieDiffers(c c19CookieCase, rotated, overdue bool) []string {
@@ -831,13 +1103,23 @@ func c19CookieDiffers(c c19CookieCase, rotated, overdue bool) []string {
 }
 
 func c19CookieValid(c c19CookieCase) bool {
-	if c.From < 0 || c.From >= len(c19FromAddrs) || c.Key < 0 || c.Key > 2 || c.Cookie < 0 || c.Cookie > 4 || c.DelayS < 0 || c.AgeS < 0 {
+	if c.From < 0 || c.From >= len(c19FromAddrs) || c.Key < 0 || c.Key > 4 || c.Cookie < 0 || c.Cookie > 4 || c.DelayS < 0 || c.AgeS < 0 {
 		return false
+	}
+	if c.Key >= 3 {
+		if c.KOff < 0 || c.KLen < 0 || c.KOff+max(c.KLen, 1) > KemKeyLen || (c.KLen <= 1 && c.KMask&0xff == 0) || (c.KLen > 1 && c.KLen < 4) {
+			return false
+		}
+	}
+	for _, b := range c.Busy {
+		if b.Rot < 1 || b.LeadMs < 0 || b.LeadMs > 2500 || b.SendMs < 0 || b.Burst < 0 || b.Burst > 64 {
+			return false
+		}
 	}
 	if r := c.AgeS % 120; c.AgeS != 0 && (r < 2 || r > 117) {
 		return false // minting at a rotation instant: which key sealed the cookie is a race (the start of Serve is no rotation)
 	}
-	if c.Real && (c.Key == 2 || c.Cookie == 4) {
+	if c.Real && (c.Key == 2 || c.Key == 4 || c.Cookie == 4) {
 		return false
 	}
 	if c.Cookie == 1 && c.Mask&0xff == 0 {
@@ -855,6 +1137,7 @@ func c19CookieRun(t *testing.T) func(c c19CookieCase, v *vlib.Verdict) {
 		var out c19CookieOut
 		defer vSetFamily(vSetFamily(c.Fam))
 		v.Label("addresses:" + vFamilyNames[c.Fam%3])
+		c19StartRealClock()
 		res := vlib.Bubble(t, 60*time.Second, func() { out = c19Cookie(c) })
 		if !c19BubbleVerdict(res, v) {
 			return
@@ -867,7 +1150,13 @@ func c19CookieRun(t *testing.T) func(c c19CookieCase, v *vlib.Verdict) {
 		differs := c19CookieDiffers(c, out.rotated, overdue)
 		v.Label("base:" + map[bool]string{true: "real-client(byte-replacement)", false: "harness-driven(consistent-mac)"}[c.Real])
 		v.Label("from:" + []string{"A", "same-ip-other-port", "other-ip-same-port", "other-ip-other-port"}[c.From])
-		v.Label("key:" + []string{"K", "replaced-field", "other-key-consistent-mac"}[c.Key])
+		v.Label("key:" + []string{"K", "replaced-field", "other-key-consistent-mac", "K-altered-in-one-region:replaced-field", "K-altered-in-one-region:consistent-mac"}[c.Key])
+		if out.keyNote != "" {
+			v.Label("altered-key:" + out.keyNote)
+		}
+		for _, l := range out.busy {
+			v.Label(l)
+		}
 		v.Label("cookie:" + []string{"intact", "byte-altered", "of-other-address-and-key", "of-other-key-same-address", "of-same-key-other-address"}[c.Cookie])
 		v.Label("presented:" + map[bool]string{true: "after-rotation", false: "before-rotation"}[out.rotated])
 		v.Labelf("minted-in-key-period:%s", []string{"0", "1", "2", "3+"}[min(c.AgeS/120, 3)])
@@ -898,8 +1187,15 @@ func c19CookieRun(t *testing.T) func(c c19CookieCase, v *vlib.Verdict) {
 		}
 		v.NonTrivial = true
 		if accepted {
-			v.Failf("C19:cookie-accepted:"+what, "client acknowledgement accepted although it differs from the exchange the cookie was minted for in: %s (ServerAuth emitted %v, handshake entry for the source %v, table change %q %d->%d; server sent:%s)",
-				what, out.serverAuth, out.entryCreated, out.grewField, out.grewFrom, out.grewTo, out.emitted)
+			extra := ""
+			if out.keyNote != "" {
+				extra += fmt.Sprintf("; the named key equals K except for %s (offset %d)", out.keyNote, c.KOff)
+			}
+			if len(c.Busy) > 0 {
+				extra += fmt.Sprintf("; around the rotation instants: %v", out.busy)
+			}
+			v.Failf("C19:cookie-accepted:"+what, "client acknowledgement accepted although it differs from the exchange the cookie was minted for in: %s (ServerAuth emitted %v, handshake entry for the source %v, table change %q %d->%d; server sent:%s)%s",
+				what, out.serverAuth, out.entryCreated, out.grewField, out.grewFrom, out.grewTo, out.emitted, extra)
 			return
 		}
 		if out.emitted != "" {
@@ -957,6 +1253,74 @@ func TestVerifC19CookieSweep(t *testing.T) {
 				}
 			}
 		}
+		// the acknowledgement names a key that equals K outside one region: one bit / one byte at the ends of the encoding,
+		// at the boundary between its 768 coefficient bytes and its 32 seed bytes and in every 32-byte block; every
+		// 32-byte block rewritten (the last one is the seed), a block across byte 768; from A with the intact cookie
+		// at once, and (last block, last bit) from the other sources and after a rotation
+		for _, key := range []int{3, 4} {
+			if real && key == 4 {
+				continue
+			}
+			offs := []int{1, 383, 384, 766, 767, 769, 798, 799}
+			for o := 0; o < KemKeyLen; o += 32 {
+				offs = append(offs, o)
+			}
+			for _, o := range offs {
+				for _, m := range []int{0x01, 0x80, 0xff} {
+					if !emit(c19CookieCase{Real: real, Key: key, KOff: o, KMask: m}) {
+						return
+					}
+				}
+			}
+			for o := 0; o < KemKeyLen; o += 32 {
+				if !emit(c19CookieCase{Real: real, Key: key, KOff: o, KLen: 32, KSeed: uint64(o) + 1}) {
+					return
+				}
+			}
+			for _, r := range [][2]int{{752, 32}, {0, 768}, {0, 800}, {764, 4}, {768, 4}, {796, 4}, {400, 7}} {
+				if !emit(c19CookieCase{Real: real, Key: key, KOff: r[0], KLen: r[1], KSeed: 99}) {
+					return
+				}
+			}
+			for from := 0; from < 4; from++ {
+				for _, d := range []int{0, 125} {
+					if from == 0 && d == 0 {
+						continue
+					}
+					if !emit(c19CookieCase{Real: real, From: from, Key: key, KOff: 768, KLen: 32, KSeed: 5, DelayS: d}) || !emit(c19CookieCase{Real: real, From: from, Key: key, KOff: 799, KMask: 0x80, DelayS: d}) {
+						return
+					}
+				}
+			}
+		}
+		// hello traffic and send durations around the rotation instants between minting and presentation: the unaltered
+		// acknowledgement from A (and, once, each other difference) presented 5 s after the first / second instant
+		slow := func(rot, lead, send int) c19Busy { return c19Busy{Rot: rot, LeadMs: lead, SendMs: send} }
+		for _, age := range []int{0, 130} {
+			for _, plan := range [][]c19Busy{
+				{slow(1, 1, 1)}, {slow(1, 3, 50)}, {slow(1, 500, 500)}, {slow(1, 2500, 9000)}, // in progress at the first instant
+				{slow(1, 500, 499)}, {slow(1, 2000, 0)}, // finished before it
+				{{Rot: 1, Burst: 1}}, {{Rot: 1, Burst: 16}}, {{Rot: 1, LeadMs: 40, SendMs: 40, Burst: 8}},
+			} {
+				for _, d := range []int{125 - age%120, 245 - age%120} {
+					if !emit(c19CookieCase{Real: real, DelayS: d, AgeS: age, Busy: plan}) {
+						return
+					}
+				}
+			}
+			for _, plan := range [][]c19Busy{
+				{slow(1, 700, 700), slow(2, 700, 700)}, {slow(2, 700, 700)}, {slow(1, 5, 5), {Rot: 2, Burst: 8}},
+			} {
+				if !emit(c19CookieCase{Real: real, DelayS: 245 - age%120, AgeS: age, Busy: plan}) {
+					return
+				}
+			}
+		}
+		for from := 1; from < 4; from++ {
+			if !emit(c19CookieCase{Real: real, From: from, DelayS: 125, Busy: []c19Busy{slow(1, 300, 300)}}) {
+				return
+			}
+		}
 		masks := []int{0x01, 0x80}
 		if vlib.Thorough() {
 			masks = []int{0x01, 0x02, 0x04, 0x08, 0x10, 0x20, 0x40, 0x80, 0xff}
@@ -980,7 +1344,7 @@ func TestVerifC19CookieSweep(t *testing.T) {
 			}
 		}
 	}
-	rec.Extra("enumerated", "base {real client, harness-driven} x source {A, other port, other IP, both} x key {K, field replaced, other key with consistent MAC} x cookie {intact, of other exchange x3} x (delay {0,45,110 | 125,170,245,299 s} on a server that has just started + server age {130,250,370 s} x delay 125 s (from A with K also 0, 60, 245 s), IPv4-mapped addresses + delay 0 with 4-byte IPv4 and with IPv6 addresses); every cookie byte x masks (quick {0x01,0x80}; thorough 8 single bits + 0xff)")
+	rec.Extra("enumerated", "base {real client, harness-driven} x source {A, other port, other IP, both} x key {K, field replaced, other key with consistent MAC} x cookie {intact, of other exchange x3} x (delay {0,45,110 | 125,170,245,299 s} on a server that has just started + server age {130,250,370 s} x delay 125 s (from A with K also 0, 60, 245 s), IPv4-mapped addresses + delay 0 with 4-byte IPv4 and with IPv6 addresses); every cookie byte x masks (quick {0x01,0x80}; thorough 8 single bits + 0xff); key = K altered in ONE region {field replaced, consistent MAC}: one bit / byte (masks 0x01,0x80,0xff) at offsets 0,1,383,384,766,767,768,769,798,799 and every multiple of 32, every 32-byte block rewritten, regions 752+32, 0+768, 0+800, 764+4, 768+4, 796+4, 400+7, last block / last bit also from every source and 125 s later; traffic around the rotation instants (unaltered acknowledgement, server age {0,130 s}, presented 5 s after the 1st / 2nd instant): hello whose ServerHello send lasts {1,50,500,9000 ms} and is in progress at the instant, sends finishing before it, bursts of {1,8,16} hellos at the instant, both instants busy / only the second")
 }
 
 func TestVerifC19CookieRandom(t *testing.T) {
@@ -990,11 +1354,41 @@ func TestVerifC19CookieRandom(t *testing.T) {
 		c.From = rapid.SampledFrom([]int{0, 0, 1, 2, 3}).Draw(t, "from")
 		c.Fam = rapid.SampledFrom([]int{0, 0, 1, 2, 2}).Draw(t, "fam")
 		if c.Real {
-			c.Key = rapid.SampledFrom([]int{0, 0, 1}).Draw(t, "key")
+			c.Key = rapid.SampledFrom([]int{0, 0, 0, 1, 3}).Draw(t, "key")
 			c.Cookie = rapid.SampledFrom([]int{0, 0, 1, 1, 2, 3}).Draw(t, "cookie")
 		} else {
-			c.Key = rapid.SampledFrom([]int{0, 0, 0, 1, 2, 2}).Draw(t, "key")
+			c.Key = rapid.SampledFrom([]int{0, 0, 0, 0, 1, 2, 2, 3, 4, 4, 4}).Draw(t, "key")
 			c.Cookie = rapid.SampledFrom([]int{0, 0, 0, 1, 1, 2, 3, 4}).Draw(t, "cookie")
+		}
+		if c.Key >= 3 {
+			// the region in which the named key differs from K
+			edge := []int{0, 1, 2, 383, 384, 385, 766, 767, 768, 769, 798, 799}
+			switch rapid.IntRange(0, 2).Draw(t, "kreg") {
+			case 0: // one bit
+				c.KMask = 1 << rapid.IntRange(0, 7).Draw(t, "kbit")
+			case 1: // one byte
+				c.KMask = rapid.IntRange(1, 255).Draw(t, "kmask")
+			default:
+				c.KLen = rapid.SampledFrom([]int{4, 16, 32, 32, 32, 64, 400}).Draw(t, "klen")
+				c.KSeed = rapid.Uint64().Draw(t, "kseed")
+			}
+			if c.KLen <= 1 {
+				if rapid.Bool().Draw(t, "koffEdge") {
+					c.KOff = rapid.SampledFrom(edge).Draw(t, "koffE")
+				} else {
+					c.KOff = rapid.IntRange(0, KemKeyLen-1).Draw(t, "koff")
+				}
+			} else {
+				switch rapid.IntRange(0, 2).Draw(t, "kwhere") {
+				case 0:
+					c.KOff = KemKeyLen - c.KLen // the end of the encoding
+				case 1:
+					c.KOff = rapid.SampledFrom([]int{0, 368, 736, 752, 768}).Draw(t, "koffR")
+				default:
+					c.KOff = rapid.IntRange(0, KemKeyLen-c.KLen).Draw(t, "koffAny")
+				}
+				c.KOff = min(c.KOff, KemKeyLen-c.KLen)
+			}
 		}
 		if c.Cookie == 1 {
 			c.Off = rapid.IntRange(0, PQCookieLen-1).Draw(t, "off")
@@ -1013,6 +1407,29 @@ func TestVerifC19CookieRandom(t *testing.T) {
 			c.AgeS = 120*rapid.SampledFrom([]int{0, 1, 1, 2, 2, 3, 4, 5}).Draw(t, "agePeriod") + rapid.IntRange(2, 117).Draw(t, "ageInPeriod")
 			if r := (c.AgeS + c.DelayS) % 120; c.DelayS > 0 && (r < 2 || r > 117) {
 				c.DelayS += 5 // keep the presentation clear of a rotation instant
+			}
+		}
+		// what the server is doing around the rotation instants the cookie has to die at
+		if c.DelayS > 120 && rapid.Bool().Draw(t, "busy") {
+			n := rapid.IntRange(1, 2).Draw(t, "busyInstants")
+			for i := 0; i < n; i++ {
+				b := c19Busy{Rot: rapid.SampledFrom([]int{1, 1, 1, 2}).Draw(t, "rot")}
+				kind := rapid.IntRange(0, 5).Draw(t, "busyKind")
+				if kind <= 4 { // a hello whose answer is slow to leave the socket
+					b.LeadMs = rapid.SampledFrom([]int{1, 2, 10, 100, 500, 1000, 2500}).Draw(t, "leadMs")
+					if rapid.Bool().Draw(t, "leadAny") {
+						b.LeadMs = rapid.IntRange(1, 2500).Draw(t, "leadMsAny")
+					}
+					if kind == 0 {
+						b.SendMs = rapid.IntRange(0, b.LeadMs-1).Draw(t, "sendShort") // leaves before the instant
+					} else {
+						b.SendMs = b.LeadMs + rapid.SampledFrom([]int{0, 1, 100, 3000}).Draw(t, "sendOver")
+					}
+				}
+				if kind >= 4 {
+					b.Burst = rapid.SampledFrom([]int{1, 4, 16}).Draw(t, "burst")
+				}
+				c.Busy = append(c.Busy, b)
 			}
 		}
 		return c
@@ -2148,7 +2565,25 @@ var (
 // later) are accepted.
 func c19SelfTestCookie(t *testing.T) {
 	c19SelfCookieOnce.Do(func() {
-		for _, c := range []c19CookieCase{{}, {Forge: true}, {Real: true}, {DelayS: 60}, {AgeS: 130}, {AgeS: 250, DelayS: 100}, {Real: true, AgeS: 370, DelayS: 60}} {
+		c19StartRealClock()
+		// region-altered keys: every longer region gives a well-formed key that differs from K only inside the region
+		raw, _ := c19NewKEM().Public.MarshalBinary()
+		for off := 0; off+4 <= KemKeyLen; off++ {
+			for _, n := range []int{4, 5, 32, 33} {
+				if off+n > KemKeyLen {
+					continue
+				}
+				alt := c19AlterKey(raw, c19CookieCase{Key: 4, KOff: off, KLen: n, KSeed: uint64(off*7 + n)})
+				d0, d1 := c19FirstLastDiff(raw, alt)
+				if _, err := keys.ParseKEMPublicKeyFromBytes(alt); err != nil || d0 < off || d1 >= off+n {
+					c19SelfCookieErr = fmt.Sprintf("C19 key alteration: region %d..%d gives a key that differs in %d..%d, parser: %v", off, off+n-1, d0, d1, err)
+					return
+				}
+			}
+		}
+		for _, c := range []c19CookieCase{{}, {Forge: true}, {Real: true}, {DelayS: 60}, {AgeS: 130}, {AgeS: 250, DelayS: 100}, {Real: true, AgeS: 370, DelayS: 60},
+			// traffic around a rotation instant that does not lie between minting and presentation changes nothing
+			{DelayS: 60, Busy: []c19Busy{{Rot: 1, LeadMs: 500, SendMs: 800, Burst: 3}}}} {
 			var out c19CookieOut
 			res := vlib.Bubble(t, 60*time.Second, func() { out = c19Cookie(c) })
 			if res.Panic != "" || res.Hung || out.mach != "" || !out.serverAuth || !out.entry {
